@@ -39,6 +39,7 @@ bool zlib_agrees(int wrap, const uint8_t *in, size_t len, int ref_status, const 
 // foreign encoder
 std::vector<uint8_t> zlib_compress(const std::vector<uint8_t> &data, int wrap, int level, int strategy, int wbits, int memlevel,
                                    const uint8_t *dict = nullptr, size_t dict_len = 0);
+void maybe_swarm_cpu(Rng &r, Json &plan, uint32_t num, uint32_t den); // cpu.cc: attach a simulated CPU to a plan
 void scramble_regs(uint64_t seed); // register-garbage seam (regs.cc)
 extern uint64_t g_infra_faults;
 extern std::string g_infra_msg;
